@@ -54,10 +54,22 @@ def initNamed (s : Store) (g : ObjId) (id type name created : String) : Res Unit
 def nameOf (s : Store) (o : ObjId) : String := (s.attr? o "name").getD ""
 def idOf (s : Store) (o : ObjId) : String := (s.attr? o "entity_id").getD ""
 
-/-- util::checkEntityInput: an initialised front-end object whose group still has a hard link -/
+/-- objects that can be reached from the given ones by following links (breadth first, fuel = number of objects) -/
+def reachFrom (s : Store) : Nat → List ObjId → List ObjId → List ObjId
+  | 0, seen, _ => seen
+  | fuel + 1, seen, frontier =>
+    let next := (frontier.flatMap fun o => (s.linksOf o).map (·.2)).eraseDups.filter fun o => !seen.contains o
+    if next.isEmpty then seen else reachFrom s fuel (seen ++ next) next
+
+def inFile (s : Store) (o : ObjId) : Bool := (reachFrom s s.objs.length [0] [0]).contains o
+
+/-- EntityHDF5::isValidEntity: the object still has a hard link and a path in the file -/
+def isValidEntity (s : Store) (o : ObjId) : Bool := s.refCount o > 0 && inFile s o
+
+/-- util::checkEntityInput: an initialised front-end object that is still a valid entity -/
 def validHandle (s : Store) (h : Option Handle) : Bool :=
   match h with
-  | some h => s.refCount h.obj > 0
+  | some h => isValidEntity s h.obj
   | none => false
 
 -- ---------------------------------------------------------------------------------------------------------
@@ -77,7 +89,8 @@ def blkFind (s : Store) (blk : ObjId) (kind iname iid : String) : Option ObjId :
   | some p =>
     if iname.isEmpty && iid.isEmpty then none else
     let needle := if !iname.isEmpty then iname else iid
-    let g := if s.hasObject p needle then s.child? p needle
+    -- `openGroup(needle, false)` on something that is not a group would throw; the containers hold groups only
+    let g := if s.hasObject p needle then (if s.hasGroup p needle then s.child? p needle else none)
              else if !iid.isEmpty then s.findGroupByAttribute p "entity_id" iid else none
     match g with
     | some o => if !iname.isEmpty && !iid.isEmpty && s.attr? o "entity_id" != some iid then none else some o
@@ -291,6 +304,12 @@ def linkedIds (s : Store) (c : Option ObjId) : List String :=
 
 def childIds (s : Store) (o : ObjId) (cname : String) : List String := linkedIds s (s.optGroup o cname)
 
+/-- the loop "for every child: deleteX(child.id())" over the container `cname` of the victim `v` -/
+def afterKids (rec : Store → ObjId → String → Store × Bool) (s : Store) (v : ObjId) (cname : String) : Store :=
+  match s.optGroup v cname with
+  | some vc => (childIds s v cname).foldl (fun s kid => (rec s vc kid).1) s
+  | none => s
+
 /-- SectionHDF5::deleteSection / SourceHDF5::deleteSource on the container group `c` of the parent: the children of the
     victim are deleted first (by their ids, through the same function), then every link to the victim goes.
     `cname` is "sections" or "sources".  Fuel bounds the nesting depth (number of objects + 1 suffices for a forest). -/
@@ -299,12 +318,7 @@ def deleteNested (cname : String) : Nat → Store → ObjId → String → Store
   | fuel + 1, s, c, key =>
     match s.findGroupByNameOrAttribute c "entity_id" key with
     | none => (s, false)
-    | some v =>
-      let kids := childIds s v cname
-      let s := match s.optGroup v cname with
-        | some vc => kids.foldl (fun s kid => (deleteNested cname fuel s vc kid).1) s
-        | none => s
-      s.removeAllLinks c (nameOf s v)
+    | some v => (afterKids (deleteNested cname fuel) s v cname).removeAllLinks c (nameOf s v)
 
 def fuelOf (s : Store) : Nat := s.objs.length + 1
 
@@ -335,12 +349,7 @@ def deleteBlockSource (s : Store) (blk : ObjId) (key : String) : Store × Bool :
   | some c =>
     match blkFindKey s blk "O" key with
     | none => (s, false)
-    | some v =>
-      let kids := childIds s v "sources"
-      let s := match s.optGroup v "sources" with
-        | some vc => kids.foldl (fun s kid => (deleteNested "sources" (fuelOf s) s vc kid).1) s
-        | none => s
-      s.removeAllLinks c (nameOf s v)
+    | some v => (afterKids (deleteNested "sources" (fuelOf s)) s v "sources").removeAllLinks c (nameOf s v)
 
 /-- BlockHDF5::removeEntity for data arrays, data frames, tags, multi tags, groups -/
 def removeEntity (s : Store) (blk : ObjId) (kind iname iid : String) : Store × Bool :=
